@@ -43,6 +43,7 @@ def run(prog, check):
     if render is None:
         raise AnalysisError('Term.__str__ not found')
     check.saw(render)
+    render = flatten(prog, render)
     # does the renderer ignore the coefficient of a blob?
     blob_ignores = False
     for n in ast.walk(render.node):
@@ -304,11 +305,22 @@ def run(prog, check):
     check.saw(at)
     ga = cfgmod.build(at)
     tp = at.params()[1]
-    copies = [n for n in ga.stmt_nodes() if n.kind == 'stmt' and isinstance(n.ast, ast.Assign) and isinstance(n.ast.targets[0], ast.Name)
-              and n.ast.targets[0].id == tp and isinstance(n.ast.value, ast.Call) and call_name(n.ast.value) in ('Term', 'copy', 'deepcopy')]
-    uses = [n for n in ga.stmt_nodes() if n.kind == 'stmt' and (
-        any(isinstance(c, ast.Call) and call_name(c) == 'append' and c.args and isinstance(c.args[0], ast.Name) and c.args[0].id == tp for c in ast.walk(n.ast)))]
-    ok = bool(copies) and bool(uses) and all(ga.must_pass(ga.entry, u, copies) for u in uses)
+    # the object appended is a name bound (on every path to the append) to Term(<parameter>) / a copy of it
+    uses = []
+    for n in ga.stmt_nodes():
+        if n.kind == 'stmt':
+            for c in ast.walk(n.ast):
+                if isinstance(c, ast.Call) and call_name(c) == 'append' and c.args and isinstance(c.args[0], ast.Name) and \
+                        isinstance(c.func, ast.Attribute) and 'TermList' in unparse(c.func.value):
+                    uses.append((n, c.args[0].id))
+    ok = bool(uses)
+    for u, nm in uses:
+        copies = [n for n in ga.stmt_nodes() if n.kind == 'stmt' and isinstance(n.ast, ast.Assign) and isinstance(n.ast.targets[0], ast.Name)
+                  and n.ast.targets[0].id == nm and isinstance(n.ast.value, ast.Call) and call_name(n.ast.value) in ('Term', 'copy', 'deepcopy')
+                  and n.ast.value.args and unparse(n.ast.value.args[0]) == tp]
+        others = [n for n in ga.stmt_nodes() if n.kind == 'stmt' and isinstance(n.ast, ast.Assign) and
+                  nm in target_names(n.ast.targets[0]) and n not in copies]
+        ok = ok and bool(copies) and not others and ga.must_pass(ga.entry, u, copies)
     check.ob('C12.R6', '%s::stores-private-copy' % at.key, ok, at.where,
              'the term object placed in the equation is constructed inside AddTerm on every path' if ok else
              'the caller\'s own Term object can be placed in the equation: a later merge changes the caller\'s object / another equation sharing it',
